@@ -231,7 +231,8 @@ pub fn formula(t: &mut Tape, d: &Dict) -> String {
 }
 
 pub fn date(t: &mut Tape) -> String {
-    let y = match t.pick(8) {
+    let y = match t.pick(9) {
+        8 => t.choose(&["2147483647", "-2147483647", "2147483648", "-2147483648", "-1", "99999999999", "-0", "262143", "-262144"]).to_string(),
         0 => "2020".to_string(),
         1 => "1".to_string(),
         2 => "0001".to_string(),
@@ -258,7 +259,9 @@ pub fn date(t: &mut Tape) -> String {
         _ => format!(".{}", "1234567890123".chars().take(t.pick(13)).collect::<String>()),
     };
     let time = format!("{:02}:{:02}:{:02}{}", t.pick(25), t.pick(61), t.pick(62), frac);
-    let off = match t.pick(8) {
+    let off = match t.pick(10) {
+        8 => format!(" {}{}:{:02}", t.choose(&["+", "-"]), t.choose(&["2000000", "596523", "596524", "2147483647", "2147483648", "99999", "24", "100"]), t.pick(60)),
+        9 => format!(" {}{}", t.choose(&["+", "-"]), t.choose(&["9999", "2400", "0000", "00000", "235", "99999999"])),
         0 => String::new(),
         1 => " +00:00".to_string(),
         2 => format!(" -{:02}:{:02}", t.pick(24), t.pick(60)),
@@ -268,7 +271,9 @@ pub fn date(t: &mut Tape) -> String {
         6 => " +5:00".to_string(),
         _ => format!(" +{:02}:{:02}", t.pick(15), 15 * t.pick(4)),
     };
-    let body = match t.pick(14) {
+    let body = match t.pick(16) {
+        14 => format!("{} {} {} {}", y, t.choose(&["jan", "Aug", "december"]), da, t.choose(&["bc", "BC", "bce", "ad", "CE"])),
+        15 => format!("{}-{}-{} {:02}:{:02}{}", y, mo, da, t.pick(24), t.pick(60), off),
         0 => format!("{}-{}-{}", y, mo, da),
         1 => format!("{}-{}-{} {}{}", y, mo, da, time, off),
         2 => format!("{}-{}-{}T{}{}", y, mo, da, time, off),
@@ -539,7 +544,35 @@ pub fn mutate(t: &mut Tape, d: &Dict) -> String {
 /// shapes aimed at specific branches read in the code
 pub fn shape(t: &mut Tape, d: &Dict) -> String {
     let n = 1 + t.pick(240);
-    match t.pick(28) {
+    match t.pick(31) {
+        28 => {
+            // towers of integer powers on a unit: the dimension exponents multiply
+            let k = 2 + t.pick(5);
+            let mut s = t.choose(&["m s", "m/s", "kg m", "'apple' m", "bit / s", "m s kg", "m", "s", "kg", "bit", "1|m", "'apple'", "radian"]).to_string();
+            if s.contains('/') || s.contains('|') || s.contains(' ') {
+                s = format!("({})", s);
+            }
+            for _ in 0..k {
+                s = format!("({}^{})", s, t.choose(&["2147483647", "-2147483648", "-2147483647", "1073741824", "65536", "3", "2", "-1", "49", "92737", "649657"]));
+            }
+            match t.pick(4) {
+                0 => s,
+                1 => format!("{} {} {}", s, s, s),
+                2 => format!("{} -> m", s),
+                _ => format!("1 / {} / {}", s, s),
+            }
+        }
+        29 => {
+            // one value multiplied / divided by itself through `ans`
+            t.choose(&["ans ans", "ans * ans", "ans / (1 / ans)", "ans^2147483647", "(ans ans)^2", "1 / ans / ans"]).to_string()
+        }
+        30 => format!("1 -> {}", {
+            let mut s = "m".to_string();
+            for _ in 0..1 + t.pick(4) {
+                s = format!("({}^{})", s, t.choose(&["2147483647", "4000000000", "-2147483648", "1e10", "3", "65536"]));
+            }
+            s
+        }),
         0 => format!("{}1{}", "(".repeat(n), ")".repeat(n)),
         1 => format!("{}1", "-".repeat(n)),
         2 => (0..n.min(160)).map(|_| "2").collect::<Vec<_>>().join("^"),
